@@ -9,7 +9,7 @@ CHECKS = {
     "C01": dict(
         engine="E1-family-explorer",
         technique="bounded exhaustive enumeration of model programs (all feature vectors within Hamming distance 2 of a base model) executed on the real solver; step-wise and end-to-end conformance with a reference Bellman model in every grid state",
-        text="Every model of the complete deviation-bounded family Family_2(B0) (836 programs: filters incl. period-dependent ones, dense+restricted discrete choices, 0-2 continuous choices, linear/log/extrapolating grids, 2-D interpolation, stochastic states with all dependency orders, constraints, auxiliary chains, parameter-name collisions, declaration orders, T in 1..4) is solved by the real get_lcm_function/solve and every entry of every period's value array is compared with an independent reference Bellman backup (step-wise on lcm's own V_{t+1} and end-to-end), under two parameter valuations and, for Family_1, with jit off. Exhaustive within the stated bound; nothing is claimed for larger grids or between the enumerated parameter values.",
+        text="Every model of the complete deviation-bounded family Family_2(B0) (about 1070 programs: filters incl. period-dependent and mixed ones, dense+restricted discrete choices, 0-3 continuous choices, states without feasible choice (T=1, value -inf), linear/log/extrapolating grids, 2-D interpolation, stochastic states with all dependency orders, constraints, auxiliary chains, parameter-name collisions, declaration orders, T in 1..4) is solved by the real get_lcm_function/solve and every entry of every period's value array is compared with an independent reference Bellman backup (step-wise on lcm's own V_{t+1} and end-to-end), under two parameter valuations and, for Family_1, with jit off. Exhaustive within the stated bound; nothing is claimed for larger grids or between the enumerated parameter values.",
         note="trusted: numpy, the reference model mc/refmodel.py, the model generator mc/family.py; tolerance 1e-9 relative; CPU/x64 only; unsupported models (as decided by the reference) are skipped and counted",
         design="§4 C01",
     ),
@@ -65,7 +65,7 @@ CHECKS = {
     "C17": dict(
         engine="E2-primitive-explorer",
         technique="exhaustive enumeration of all filter truth tables over the cells of 9 restricted-variable shapes (complete up to 8 cells, capped above), realised as period-indexed lookup filters of real processed models and passed through the real create_state_choice_space; deviation-bounded configuration space",
-        text="Every truth table over <= 8 cells (and a stated capped set for 12 and 16 cells; all 4096 in the thorough tier) is one period of a real model whose filter is a lookup table indexed by _period; the stored combinations, the state indexer, the choice segments and the dense grids returned by create_state_choice_space are compared with a reference enumeration in row-major canonical order. Configurations: one filter / conjunction of two / filter through an auxiliary function (known finding K4), with/without unrestricted discrete and continuous variables declared between the restricted ones, is_last_period, jit_filter - all 24 combinations for small shapes, base + single deviations for larger ones.",
+        text="Every truth table over <= 8 cells (and a stated capped set for 12 and 16 cells; all 4096 in the thorough tier) is one period of a real model (variable names chosen so that canonical order differs from alphabetical order) whose filter is a lookup table indexed by _period; the stored combinations, the state indexer, the choice segments and the dense grids returned by create_state_choice_space are compared with a reference enumeration in row-major canonical order. Configurations: one filter / conjunction of two / filter through an auxiliary function (known finding K4), with/without unrestricted discrete and continuous variables declared between the restricted ones, is_last_period, jit_filter - all 24 combinations for small shapes, base + single deviations for larger ones. Pipeline clause: for every Family_1 model with restricted variables the per-period spaces and the (shifted) state indexers held by the function returned by get_lcm_function(jit=False) are compared with the reference enumeration of that period.",
         note="caps are reported in the evidence (exhaustive=false); K4 is matched by configuration split=aux + ValueError missing params only",
         design="§4 C17",
     ),
@@ -121,28 +121,28 @@ CHECKS = {
     "C04": dict(
         engine="E3-history-explorer",
         technique="exhaustive identification of the hidden draw of every (seed, period, variable, agent) triple by 30 adaptive black-box queries of the real simulate (bisection on the transition row), over all configurations of a bounded (seed, T, agents, variables, labels) space; exact oracles on the identified thresholds",
-        text="With a transition depending on (_period, g) and one distinct g per agent every (period, variable, agent) triple reads its own row, so the drawn label as a function of p0 is a step function whose threshold is identified to 2^-30 through the real simulate (about 8800 calls). For 63 configurations (3 seeds x T 2..4 x 1,2,5,40 agents x 1-2 variables x 2-3 labels) the check decides exactly: a single threshold with the semantically fixed direction on a lattice of rows including zero and degenerate rows (inverse CDF; zero-probability labels never drawn; 3-label rows against the cumulative sums), pairwise distinct thresholds across agents, periods, variables and seeds (no key reuse), thresholds invariant under permuting other agents' data, changing parameters, the other variable's array or the agent's own non-dependency state, same seed = identical frames, other seed = identical period 0.",
+        text="With a transition depending on (_period, g) and one distinct g per agent every (period, variable, agent) triple reads its own row, so the drawn label as a function of p0 is a step function whose threshold is identified to 2^-30 through the real simulate (about 9500 calls). For 69 configurations (3 seeds x T 2..4 x 1,2,5,40 agents x 1-2 variables x 2-3 labels x dependency orders (_period,g) and (g,_period)) the check decides exactly: a single threshold with the semantically fixed direction on a lattice of rows including zero and degenerate rows (inverse CDF; zero-probability labels never drawn; 3-label rows against the cumulative sums), pairwise distinct thresholds across agents, periods, variables and seeds (no key reuse), thresholds invariant under permuting other agents' data, changing parameters, the other variable's array or the agent's own non-dependency state, same seed = identical frames, other seed = identical period 0.",
         note="uniformity of the underlying draws is JAX's PRNG contract (trusted); an auxiliary Kolmogorov statistic over 720 thresholds guards against monotone distortions and can fail the run only at p < 1e-9",
         design="§4 C04",
     ),
     "C08": dict(
         engine="E3-history-explorer",
         technique="exhaustive enumeration of all permutations, subsets, single duplications and key orders of a 4-agent batch for every model of the family, real simulation; differential oracle against the base batch",
-        text="For every Family_1 model a batch of four agents (on- and off-grid, sharing restricted resp. continuous states pairwise) is simulated, followed by all 24 permutations, all 15 non-empty subsets, all 4 duplications and all key orders of the initial_states mapping (about 49 simulate calls per model); every agent's path (value, choices, states in every period; period 0 only for stochastic models) must equal its path in the base batch.",
+        text="For every Family_1 model a batch of four agents (on- and off-grid, sharing restricted resp. continuous states pairwise) is simulated, one of them without any feasible choice where the model allows it, followed by all 24 permutations, all 15 non-empty subsets, all 4 duplications and all key orders of the initial_states mapping (about 49 simulate calls per model); every agent's path (value, choices, states in every period; period 0 only for stochastic models) must equal its path in the base batch.",
         note="labels and choices exact, floats 1e-12; K5 (non-broadcast-safe transition functions) is reported under C03 and excluded here",
         design="§4 C08",
     ),
     "C09": dict(
         engine="E3-history-explorer",
         technique="breadth-first enumeration of all call sequences (depth 2, thorough 3) over a 6-letter call alphabet on one live function object per (model, jit, target), all ordered pairs of model variants sharing every name built in one process, and rebuilds in fresh interpreters under 16 hash seeds; cross-history digest comparison",
-        text="504 call sequences (two parameter sets, python/numpy/jax leaves, two batches, two seeds, a params dict mutated in place between calls) on live solve and solve_and_simulate objects of three models with jit on and off, 20 histories of five model variants that share all variable, function and parameter names (other grid type with the same bounds, other coefficient, other auxiliary body, other filter), and 48 fresh interpreters under PYTHONHASHSEED 0..15: the bytes of the result of every (model, call) must be identical in every history, process and hash seed, and params pytrees (structure, leaf identity, leaf bytes) and the model object must be unchanged after every call.",
+        text="672 call sequences (two parameter sets, python/numpy/jax leaves, two batches, two seeds, a params dict mutated in place between calls; after every single-call sequence the function is rebuilt from the same Model object and the call repeated) on live solve and solve_and_simulate objects of four models with jit on and off, 20 histories of five model variants that share all variable, function and parameter names (other grid type with the same bounds, other coefficient, other auxiliary body, other filter), and 64 fresh interpreters under PYTHONHASHSEED 0..15 (each building the variants in a rotated order): the bytes of the result of every (model, call) must be identical in every history, process and hash seed, and params pytrees (structure, leaf identity, leaf bytes) and the model object must be unchanged after get_lcm_function and after every call.",
         note="a bounded set of hash seeds; observed argument orders of the set-derived argument list are counted in the evidence; correctness of the fresh results is C01/C02's business",
         design="§4 C09",
     ),
     "C12": dict(
         engine="E3-history-explorer",
-        technique="exhaustive enumeration of all subsets (size <= 2, thorough 3) of a 19-letter alphabet of documented rule violations on three base models, and of an odd-shape alphabet x horizons x batch sizes plus Family_1 for the converse; each specification is driven through Model(...), get_lcm_function (3 targets) and the first calls",
-        text="Rejection: every subset of at most two of 19 documented rule violations (horizon 0/-1, no utility, missing transition, name overlap, non-grid state/choice, non-callable function, stochastic transition on/depending on a continuous variable, on a parameter, on an auxiliary function, filter with parameter, six invalid grids) applied to three base models must be rejected with ModelInitilizationError, GridInitializationError or ValueError no later than get_lcm_function, for all three targets (570 specifications). Converse: 21 odd shapes (no choices, no states, single-label and single-point grids, stochastic transitions without dependencies or with the period only, restricted stochastic state, state-only filters, only continuous / only discrete choices, ...) x T in {1,2} x 1 or 3 agents and every Family_1 model must either be rejected up front with a sanctioned exception or run solve, simulate and solve_and_simulate to completion with parameters filled from the returned template. A fresh interpreter must import lcm.entry_point without the compatibility shim.",
+        technique="exhaustive enumeration of all subsets (size <= 2, thorough 3) of a 20-letter alphabet of documented rule violations on three base models, and of an odd-shape alphabet x horizons x batch sizes plus Family_1 for the converse; each specification is driven through Model(...), get_lcm_function (3 targets) and the first calls",
+        text="Rejection: every subset of at most two of 20 documented rule violations (horizon 0/-1, no utility, missing transition, name overlap, non-grid state/choice, non-callable function, stochastic transition on/depending on a continuous variable, on a parameter, on an auxiliary function, filter with parameter, six invalid grids) applied to three base models must be rejected with ModelInitilizationError, GridInitializationError or ValueError no later than get_lcm_function, for all three targets (about 630 specifications). Converse: 21 odd shapes (no choices, no states, single-label and single-point grids, stochastic transitions without dependencies or with the period only, restricted stochastic state, state-only filters, only continuous / only discrete choices, ...) x T in {1,2} x 1 or 3 agents and every Family_1 model must either be rejected up front with a sanctioned exception or run solve, simulate and solve_and_simulate to completion with parameters filled from the returned template. A fresh interpreter must import lcm.entry_point without the compatibility shim.",
         note="eight accepted-but-failing shapes are genuine defects recorded as known findings K1, K2, K3a-d, K6 (matched by shape + stage + exception type); only documented rules are in the violation alphabet",
         design="§4 C12",
     ),
